@@ -98,6 +98,11 @@ def judge(session_res, golden, workloads, steps):
     last = session_res["steps"][-1]
     run_actors = steps[-1]["run"]
     if last.get("harness_error"):
+        if str(last["harness_error"]).startswith("livelock"):
+            # bounded liveness: every run that is still alive only polls / sleeps and nothing can change for it any more
+            import re as _re
+            what = _re.sub(r"\.\d+\.", ".<n>.", str(last["harness_error"]))
+            return [("a:finish", {"symptom": what[:160]}, "runs never finish: %s" % last["harness_error"])]
         return [("harness", {}, last["harness_error"])]
     for a, ar in zip(run_actors, last["actors"]):
         key = json.dumps([a["wl"], a.get("opts") or {}], sort_keys=True)
